@@ -32,7 +32,10 @@ var st struct {
 	loaded bool
 	rf     replayFile
 	next   int
+	failed bool // an assertion has failed in this run
 }
+
+type stopAfterFailure struct{}
 
 func load() {
 	if st.loaded {
@@ -59,6 +62,11 @@ type exhausted struct{ name string }
 func draw(name string) uint64 {
 	load()
 	if st.next >= len(st.rf.Inputs) {
+		if st.failed {
+			// the recorded inputs end where the executor's path ended; after a
+			// failed assertion the native run may go on differently: stop here
+			panic(stopAfterFailure{})
+		}
 		panic(exhausted{name})
 	}
 	in := st.rf.Inputs[st.next]
@@ -111,6 +119,7 @@ func Assume(c bool) {
 // Assert is a proof obligation.
 func Assert(c bool, label string) {
 	if !c {
+		st.failed = true
 		fmt.Println("ASSERTFAIL " + label)
 	}
 }
@@ -126,7 +135,7 @@ func ExpectPanic(f func()) (panicked bool) {
 	defer func() {
 		if r := recover(); r != nil {
 			switch r.(type) {
-			case exhausted, assumeFailed:
+			case exhausted, assumeFailed, stopAfterFailure:
 				panic(r)
 			}
 			panicked = true
@@ -200,6 +209,9 @@ func Main(harnesses map[string]func()) {
 				os.Exit(3)
 			case assumeFailed:
 				fmt.Println("OUTCOME pruned")
+				os.Exit(0)
+			case stopAfterFailure:
+				fmt.Println("OUTCOME stopped-after-failure")
 				os.Exit(0)
 			}
 			fmt.Printf("OUTCOME panic: %v\n", r)
